@@ -155,7 +155,8 @@ Record ecase := mkE {
   estrip : bool;                        (* --strip-ending-line-break *)
   eins : nat;                           (* number of records at the end of esrc that a second process INSERTed and COMMITted *)
   erepaired : bool; eletters : list N;
-  ecmp : bool                           (* the file was read back as UTF-8 text: compare it with the model's bytes *)
+  ecmp : bool;                          (* the file was read back as UTF-8 text: compare it with the model's bytes *)
+  elb2 : linebreak                      (* --line-break of the second (INSERT + COMMIT) process: only a default, the file's own wins *)
 }.
 Definition e_detected (c : ecase) (b : str) : option linebreak :=
   match efmt c with
@@ -168,7 +169,7 @@ Definition e_detected (c : ecase) (b : str) : option linebreak :=
    by a second process (dialect from the file), extended by one record and written back at COMMIT *)
 Definition cells_of (rows : list (list (option str))) : list (list cell) :=
   map (map (fun c => match c with None => CNull | Some s => CText s end)) rows.
-Definition e_tail (c : ecase) : option linebreak := if estrip c then None else Some (elb c).
+Definition e_tail (c : ecase) : option linebreak := ending_line_break (estrip c) (elb c).   (* SELECT output: the session's line break *)
 Definition e_model_bytes (c : ecase) : option (option str) :=       (* None = no model for this format *)
   let n := (length (t_rows (esrc c)) - eins c)%nat in
   let before := firstn n (t_rows (esrc c)) in
@@ -187,8 +188,9 @@ Definition e_model_bytes (c : ecase) : option (option str) :=       (* None = no
           | inr l =>
             if negb (forallb (fun r => Nat.eqb (length r) (length (t_header (l_table l)))) ins) then Some (Some b1)
             else
-            let o2 := export_options (erepaired c) (load_file_info (FI (edelim c) 0 (elb c) (enoheader c) false) l) in
-            Some (csv_file o2 (e_tail c) (t_header (l_table l)) (cells_of (t_rows (l_table l) ++ ins)))
+            let o2 := export_options (erepaired c) (load_file_info (FI (edelim c) 0 (elb2 c) (enoheader c) false) l) in
+            (* COMMIT ends the file with the file's own line break *)
+            Some (csv_file o2 (ending_line_break (estrip c) (o_lb o2)) (t_header (l_table l)) (cells_of (t_rows (l_table l) ++ ins)))
           end
         end
       end
@@ -204,8 +206,8 @@ Definition e_model_bytes (c : ecase) : option (option str) :=       (* None = no
           | inr l =>
             if negb (forallb (fun r => Nat.eqb (length r) (length (t_header (l_table l)))) ins) then Some (Some b1)
             else
-            let lb2 := match l_lb l with Some x => x | None => elb c end in
-            Some (opt_of (ltsv_file lb2 (e_tail c) (t_header (l_table l)) (cells_of (t_rows (l_table l) ++ ins))))
+            let lb2 := match l_lb l with Some x => x | None => elb2 c end in
+            Some (opt_of (ltsv_file lb2 (ending_line_break (estrip c) lb2) (t_header (l_table l)) (cells_of (t_rows (l_table l) ++ ins))))
           end
         end
       end
